@@ -347,8 +347,8 @@ def run(chk, replay=None):
     file_cases = gen_file_cases(rng, 200 if tier == "quick" else 2000)
 
     # ---- implementation
-    impl_var = lib.harness_run_parallel("codec", var_cases)
-    impl_dec = lib.harness_run_parallel("codec", dec_cases)
+    impl_var = lib.harness_run_parallel("codec", var_cases, timeout=180)
+    impl_dec = lib.harness_run_parallel("codec", dec_cases, timeout=180)
     buf_cases = []
     for c in stream_cases:
         s = stream_bytes(c["recs"], c["pad"])
@@ -357,9 +357,9 @@ def run(chk, replay=None):
             ops += [["a", s[off:off + l]], ["d"], ["e"]]
             off += l
         buf_cases.append({"k": "buf", "ops": ops})
-    impl_buf = lib.harness_run_parallel("codec", buf_cases)
-    impl_garb = lib.harness_run_parallel("codec", garb_cases)
-    impl_file = lib.harness_run_parallel("codec", file_cases)
+    impl_buf = lib.harness_run_parallel("codec", buf_cases, timeout=180)
+    impl_garb = lib.harness_run_parallel("codec", garb_cases, timeout=180)
+    impl_file = lib.harness_run_parallel("codec", file_cases, timeout=180)
 
     # ---- property oracle on the implementation (independent of the model)
     n_eval = 0
